@@ -85,13 +85,31 @@ var rawFailures = []string{"1 / 0", "nothingx + 1", "zz = nothingx", "if 1 2", "
 
 var parseFailures = []string{"\"unterminated", "1 +", ") (", "{\nga = 1\n", "x = ", "if", "[1, 2", "99999999999999999999", "ga = = 1", "for x <- ", "1 $ 2", "else 3", "(a, 1) -> a", "}"}
 
+// ReaderSafeFailures are one-line statements that fail to parse and open no
+// bracket, brace or string that the statement reader of the binary would keep
+// open across lines (they may close more than they open).
+var ReaderSafeFailures = []string{"1 +", ") (", "x = ", "if", "ga = = 1", "for x <- ", "1 $ 2", "else 3", "(a, 1) -> a", "}", "vals = [1, 2, 3]]", "gb = (1 + 2))", "]", ")",
+	"99999999999999999999", "{ ga = 1 }}", "sum(1))", "acc = acc + [1]]]", "}}", "ga = 1 }"}
+
+// ReaderSafe reports whether s is one of ReaderSafeFailures.
+func ReaderSafe(s string) bool {
+	for _, f := range ReaderSafeFailures {
+		if f == s {
+			return true
+		}
+	}
+	return false
+}
+
 // Carrier generates one failing statement.
 func (g *FaultGen) Carrier() Carrier {
 	c := 1 + g.pick(FaultClasses)
 	k := g.pick(9)
 	j := g.pick(5)
 	boom := fmt.Sprintf("boom(%d, %d)", c, k)
-	switch g.pick(21) {
+	switch g.pick(23) {
+	case 21, 22:
+		return Carrier{Stmt: ReaderSafeFailures[g.pick(len(ReaderSafeFailures))], Where: "parse", Parse: true}
 	case 16: // below a call in a while condition, at its j-th evaluation (top level, discarded loop)
 		return Carrier{Stmt: fmt.Sprintf("{\nzi = 0\nwhile cnd(zi, %d, %d, %d) < 4 zi = zi + 1\n}", j, c, k),
 			Twin: fmt.Sprintf("{\nzi = 0\nwhile zi < %d zi = zi + 1\n}", j), Where: fmt.Sprintf("in a while condition at evaluation %d", j), Deep: true}
